@@ -27,7 +27,7 @@ def calibrate():
 
 
 def strategy(tier):
-    return Lm.case_st(tier, scopes=True)
+    return Lm.case_st(tier, scopes=True, pdata=True)
 
 
 def budget(tier):
